@@ -595,3 +595,513 @@ Proof using.
 Qed.
 
 End Naming.
+
+(* ------------------------------------------------------------------ CanonicalizeOperands, Indexes *)
+Lemma str_eqb_eq a : forall b, str_eqb a b = true <-> a = b.
+Proof.
+  induction a as [|x a IH]; intros [|y b]; cbn [str_eqb]; try (split; [discriminate|congruence]); [tauto|].
+  rewrite andb_true_iff, N.eqb_eq, IH. split; [intros [-> ->]; reflexivity|intros E; injection E; auto].
+Qed.
+
+Lemma zlookup_zset_eq {A} k (v : A) m : zlookup k (zset k v m) = Some v.
+Proof.
+  induction m as [|[k' v'] m IH]; cbn [zset zlookup]; [now rewrite Z.eqb_refl|].
+  destruct (k' =? k) eqn:E; cbn [zlookup]; [now rewrite Z.eqb_refl|now rewrite E].
+Qed.
+Lemma zlookup_zset_neq {A} j k (v : A) m : j <> k -> zlookup j (zset k v m) = zlookup j m.
+Proof.
+  intros Hne. induction m as [|[k' v'] m IH]; cbn [zset zlookup].
+  - destruct (k =? j) eqn:E; [apply Z.eqb_eq in E; congruence|reflexivity].
+  - destruct (k' =? k) eqn:E; cbn [zlookup].
+    + apply Z.eqb_eq in E. subst k'. destruct (k =? j) eqn:E2; [apply Z.eqb_eq in E2; congruence|reflexivity].
+    + destruct (k' =? j); [reflexivity|exact IH].
+Qed.
+
+Lemma zlookup_keys {A} k (m : list (Z * A)) : zlookup k m <> None <-> In k (map fst m).
+Proof.
+  induction m as [|[k' v'] m IH]; cbn [zlookup map fst In]; [tauto|].
+  destruct (k' =? k) eqn:E.
+  - apply Z.eqb_eq in E. split; [auto|discriminate].
+  - apply Z.eqb_neq in E. rewrite IH. tauto.
+Qed.
+
+Definition operands (i : instr) : list operand := inputs (iopn i) ++ [iout i].
+Definition all_operands (p : iprogram) : list operand := flat_map operands p.
+(* no index carries two different identifiers (unnamed operands are always consistent) *)
+Definition consistent (nmap : Z -> list N) (p : iprogram) : Prop :=
+  forall o, In o (all_operands p) -> oname o = [] \/ oname o = nmap (oindex o).
+Definition MInv (nmap : Z -> list N) (m : list (Z * list N)) : Prop :=
+  forall k n, zlookup k m = Some n -> n = [] \/ n = nmap k.
+
+Lemma canon_operand_ok nmap m o : MInv nmap m -> (oname o = [] \/ oname o = nmap (oindex o)) ->
+  exists m', canon_operand m o = Ok m' /\ MInv nmap m' /\
+             (forall k, zlookup k m' <> None <-> zlookup k m <> None \/ k = oindex o).
+Proof.
+  intros HM Ho. unfold canon_operand. destruct (zlookup (oindex o) m) as [ex|] eqn:El.
+  - assert (Hex : ex = [] \/ ex = nmap (oindex o)) by (apply (HM _ _ El)).
+    assert (Hkeys : forall k, zlookup k m <> None <-> zlookup k m <> None \/ k = oindex o).
+    { intros k. split; [auto|]. intros [H| ->]; [exact H|congruence]. }
+    destruct (is_empty ex) eqn:Ee; cbn [negb andb].
+    + destruct (is_empty (oname o)) eqn:En; cbn [negb].
+      * exists m. auto.
+      * exists (zset (oindex o) (oname o) m). split; [reflexivity|]. split.
+        -- intros k n. destruct (Z.eq_dec k (oindex o)) as [->|Hne].
+           ++ rewrite zlookup_zset_eq. intros E. injection E as <-. exact Ho.
+           ++ rewrite zlookup_zset_neq by assumption. apply HM.
+        -- intros k. destruct (Z.eq_dec k (oindex o)) as [->|Hne].
+           ++ rewrite zlookup_zset_eq. split; [auto|discriminate].
+           ++ rewrite zlookup_zset_neq by assumption. tauto.
+    + destruct (is_empty (oname o)) eqn:En; cbn [negb andb].
+      * exists m. auto.
+      * assert (Heq : ex = oname o).
+        { destruct Hex as [-> | ->]; [discriminate Ee|]. destruct Ho as [E|E]; [rewrite E in En; discriminate En|now rewrite E]. }
+        assert (Hs : str_eqb ex (oname o) = true) by (apply str_eqb_eq, Heq). rewrite Hs. cbn [negb].
+        exists (zset (oindex o) (oname o) m). split; [reflexivity|]. split.
+        -- intros k n. destruct (Z.eq_dec k (oindex o)) as [->|Hne].
+           ++ rewrite zlookup_zset_eq. intros E. injection E as <-. exact Ho.
+           ++ rewrite zlookup_zset_neq by assumption. apply HM.
+        -- intros k. destruct (Z.eq_dec k (oindex o)) as [->|Hne].
+           ++ rewrite zlookup_zset_eq. split; [auto|discriminate].
+           ++ rewrite zlookup_zset_neq by assumption. tauto.
+  - exists ((oindex o, oname o) :: m). split; [reflexivity|]. split.
+    + intros k n. destruct (Z.eq_dec (oindex o) k) as [<-|Hne].
+      * rewrite zlookup_cons_eq. intros E. injection E as <-. exact Ho.
+      * rewrite zlookup_cons_neq by assumption. apply HM.
+    + intros k. destruct (Z.eq_dec (oindex o) k) as [<-|Hne].
+      * rewrite zlookup_cons_eq. split; [auto|discriminate].
+      * rewrite zlookup_cons_neq by assumption. split; [auto|]. intros [H|E]; [exact H|congruence].
+Qed.
+
+Lemma canon_operands_ok nmap os : forall m, MInv nmap m ->
+  (forall o, In o os -> oname o = [] \/ oname o = nmap (oindex o)) ->
+  exists m', canon_operands m os = Ok m' /\ MInv nmap m' /\
+             (forall k, zlookup k m' <> None <-> zlookup k m <> None \/ In k (map oindex os)).
+Proof.
+  induction os as [|o os IH]; intros m HM Hos; cbn [canon_operands].
+  - exists m. split; [reflexivity|]. split; [exact HM|]. intros k. cbn. tauto.
+  - destruct (canon_operand_ok nmap m o HM (Hos o (or_introl eq_refl))) as (m1 & E1 & HM1 & K1).
+    rewrite E1. cbn [obind].
+    destruct (IH m1 HM1 (fun o' H => Hos o' (or_intror H))) as (m2 & E2 & HM2 & K2).
+    exists m2. split; [exact E2|]. split; [exact HM2|].
+    intros k. rewrite K2, K1. cbn [map In]. intuition.
+Qed.
+
+Lemma consistent_cons nmap i r : consistent nmap (i :: r) ->
+  (forall o, In o (operands i) -> oname o = [] \/ oname o = nmap (oindex o)) /\ consistent nmap r.
+Proof.
+  intros H. split; intros o Ho; apply H; unfold all_operands; cbn [flat_map]; apply in_or_app; auto.
+Qed.
+
+Lemma canonicalize_ok nmap : forall p d l m, wf_from d l p -> (forall x, In x d -> x <= l) ->
+  consistent nmap p -> MInv nmap m -> (forall k, zlookup k m <> None -> k <= l) ->
+  exists m', canonicalize m p = Ok (m', map (fun _ => true) p) /\
+             (forall k, zlookup k m' <> None <-> zlookup k m <> None \/ In k (reads p) \/ In k (outs p)).
+Proof.
+  induction p as [|i r IH]; intros d l m Hwf Hd Hc HM Hb; cbn [canonicalize].
+  - exists m. split; [reflexivity|]. intros k. cbn. tauto.
+  - destruct Hwf as (Hlt & Hin & Hr). destruct (consistent_cons _ _ _ Hc) as [Hci Hcr].
+    destruct (canon_operands_ok nmap (inputs (iopn i)) m HM) as (m1 & E1 & HM1 & K1).
+    { intros o Ho. apply Hci. unfold operands. apply in_or_app. now left. }
+    rewrite E1. cbn [obind].
+    assert (Hfresh : zlookup (out_index i) m1 = None).
+    { destruct (zlookup (out_index i) m1) eqn:E; [|reflexivity]. exfalso.
+      assert (H : zlookup (out_index i) m1 <> None) by congruence. apply K1 in H as [H|H].
+      - specialize (Hb _ H). lia.
+      - specialize (Hd _ (Hin _ H)). lia. }
+    rewrite Hfresh.
+    destruct (canon_operand_ok nmap m1 (iout i) HM1) as (m2 & E2 & HM2 & K2).
+    { apply Hci. unfold operands. apply in_or_app. right. now left. }
+    rewrite E2. cbn [obind].
+    destruct (IH (out_index i :: d) (out_index i) m2 Hr) as (m3 & E3 & K3); auto.
+    { intros x [<-|Hx]; [lia|]. specialize (Hd x Hx). lia. }
+    { intros k Hk. apply K2 in Hk as [Hk| ->]; [|unfold out_index; lia].
+      apply K1 in Hk as [Hk|Hk]; [specialize (Hb _ Hk); lia|specialize (Hd _ (Hin _ Hk)); lia]. }
+    rewrite E3. cbn [obind fst snd map]. exists m3. split; [reflexivity|].
+    intros k. rewrite K3, K2, K1. unfold reads, outs. cbn [flat_map map In]. rewrite in_app_iff.
+    unfold in_indexes, out_index. intuition.
+Qed.
+
+Lemma insert_sorted_In x l k : In k (insert_sorted x l) <-> k = x \/ In k l.
+Proof.
+  induction l as [|y t IH]; cbn [insert_sorted In]; [intuition|].
+  destruct (x <? y); [cbn [In]; intuition|].
+  destruct (x =? y) eqn:E; [apply Z.eqb_eq in E; subst; cbn [In]; intuition|].
+  cbn [In]. rewrite IH. intuition.
+Qed.
+
+Lemma sort_indexes_In l k : In k (sort_indexes l) <-> In k l.
+Proof.
+  induction l as [|x l IH]; cbn [sort_indexes fold_right In]; [tauto|].
+  fold (sort_indexes l). rewrite insert_sorted_In, IH. intuition.
+Qed.
+
+Definition rename_instr (names : list (Z * list N)) (i : instr) : instr :=
+  mkInstr (rename_operand names (iout i)) (rename_op names (iopn i)).
+
+Lemma rename_all_true names p : rename names p (map (fun _ => true) p) = map (rename_instr names) p.
+Proof. induction p as [|i r IH]; cbn [rename map]; [reflexivity|]. now rewrite IH. Qed.
+
+(* shape of the result for well-formed, consistently named programs *)
+Theorem allocate_shape cfg p lst nmap : wf_ir p -> last_instr p = Some lst -> consistent nmap p ->
+  exists idx, (forall k, In k idx <-> In k (reads p) \/ In k (outs p)) /\
+    allocate cfg p = Ok (map (rename_instr (opname (run_naming cfg p idx lst))) p, temps (run_naming cfg p idx lst)).
+Proof.
+  intros Hwf Hl Hc. unfold allocate. rewrite Hl.
+  destruct (canonicalize_ok nmap p [0] 0 [] Hwf) as (m & E & K); auto.
+  { intros x [<-|[]]. lia. }
+  { intros k n H. discriminate H. }
+  { intros k H. cbn in H. congruence. }
+  rewrite E. cbn [obind fst snd].
+  exists (sort_indexes (map fst m)). split.
+  - intros k. rewrite sort_indexes_In, <- zlookup_keys, K. cbn [zlookup]. intuition congruence.
+  - rewrite rename_all_true. reflexivity.
+Qed.
+
+(* ------------------------------------------------------------------ the names of an allocated program *)
+Lemma scan_allocated p k : wf p -> In k (reads p) \/ In k (outs p) -> zlookup k (variable (scan p)) <> None.
+Proof.
+  intros Hw H. destruct (scan_inv p Hw) as (H1 & _). apply H1.
+  destruct (in_dec Z.eq_dec k (outs p)) as [Ho|Ho]; [now right|].
+  destruct H as [H|H]; [left; split; assumption|now right].
+Qed.
+
+Lemma run_naming_inv cfg p idx lst : wf p -> In (out_index lst) (outs p) ->
+  (forall k, In k idx -> In k (reads p) \/ In k (outs p)) ->
+  NInv cfg (lastinputread p) (V (scan p) (out_index lst)) (scan p) (rev idx) (run_naming cfg p idx lst).
+Proof.
+  intros Hw Hl Hidx. unfold run_naming.
+  rewrite (variable_of_old (scan p) (out_index lst)) by (apply scan_allocated; auto). cbn [fst snd].
+  rewrite <- (app_nil_r (rev idx)). apply naming_fold; [apply NInv_init|].
+  intros k Hk. apply scan_allocated; auto.
+Qed.
+
+Record cfg_ok (cfg : alloc_cfg) : Prop := mkCfgOk {
+  ck_in : cfg_in cfg <> [];
+  ck_out : cfg_out cfg <> [];
+  ck_io : cfg_in cfg <> cfg_out cfg;
+  ck_tin : forall n, tmpname cfg n <> cfg_in cfg;
+  ck_tout : forall n, tmpname cfg n <> cfg_out cfg;
+  ck_inj : forall n m, tmpname cfg n = tmpname cfg m -> n = m }.
+
+Lemma NoDup_map_inj {A B} (f : A -> B) l : (forall x y, f x = f y -> x = y) -> NoDup l -> NoDup (map f l).
+Proof.
+  intros Hf Hnd. induction Hnd as [|x l Hx Hnd IH]; cbn [map]; constructor; [|exact IH].
+  intros Hin. apply in_map_iff in Hin as (y & E & Hy). apply Hf in E. subst. contradiction.
+Qed.
+
+Lemma NoDup_rev {A} (l : list A) : NoDup l -> NoDup (rev l).
+Proof.
+  induction l as [|x l IH]; intros H; cbn [rev]; [constructor|].
+  inversion H as [|? ? Hx Hl]; subst.
+  assert (Hp : forall l1 : list A, NoDup l1 -> ~ In x l1 -> NoDup (l1 ++ [x])).
+  { induction l1 as [|y l1 IH1]; intros Hn Hni; cbn [app]; [constructor; [intros []|constructor]|].
+    inversion Hn as [|? ? Hy Hl1]; subst. constructor.
+    - rewrite in_app_iff. cbn [In]. intros [Hin|[E|[]]]; [contradiction|]. apply Hni. now left.
+    - apply IH1; [exact Hl1|]. intros Hin. apply Hni. now right. }
+  apply Hp; [apply IH, Hl|]. rewrite <- in_rev. exact Hx.
+Qed.
+
+Lemma nlookup_inj {A} (m : list (nat * A)) v1 v2 n : NoDup (map snd m) ->
+  nlookup v1 m = Some n -> nlookup v2 m = Some n -> v1 = v2.
+Proof.
+  induction m as [|[k x] m IH]; cbn [nlookup map snd]; [discriminate|].
+  intros Hnd. inversion Hnd as [|? ? Hx Hm]; subst.
+  destruct (Nat.eqb k v1) eqn:E1; destruct (Nat.eqb k v2) eqn:E2.
+  - apply Nat.eqb_eq in E1, E2. congruence.
+  - intros Ex H2. injection Ex as ->. exfalso. apply Hx. apply in_map_iff. exists (v2, n). split; [reflexivity|apply nlookup_In, H2].
+  - intros H1 Ex. injection Ex as ->. exfalso. apply Hx. apply in_map_iff. exists (v1, n). split; [reflexivity|apply nlookup_In, H1].
+  - apply IH, Hm.
+Qed.
+
+Section Names.
+Variable cfg : alloc_cfg.
+Hypothesis Hcfg : cfg_ok cfg.
+Variables (lir : Z) (outv : nat) (a : allocation) (done : list Z) (s : naming).
+Hypothesis HN : NInv cfg lir outv a done s.
+
+Let nm := nm_of cfg lir outv a (vname s).
+
+Lemma temps_NoDup : NoDup (temps s).
+Proof using Hcfg HN.
+  rewrite (ni_temps _ _ _ _ _ _ HN). apply NoDup_map_inj; [apply (ck_inj _ Hcfg)|apply seq_NoDup].
+Qed.
+
+Lemma temps_are_tmpnames n : In n (temps s) -> exists t, n = tmpname cfg t.
+Proof using HN.
+  rewrite (ni_temps _ _ _ _ _ _ HN). intros H. apply in_map_iff in H as (t & E & _). eauto.
+Qed.
+
+Lemma vname_in_temps v n : nlookup v (vname s) = Some n -> In n (temps s).
+Proof using HN.
+  intros H. apply nlookup_In in H. apply in_rev. rewrite <- (ni_vals _ _ _ _ _ _ HN).
+  apply in_map_iff. exists (v, n). auto.
+Qed.
+
+(* the three classes of the switch *)
+Lemma nm_class k : In k done ->
+  (k = 0 /\ nm k = cfg_in cfg) \/
+  (k <> 0 /\ V a k = outv /\ lir <= k /\ nm k = cfg_out cfg) \/
+  (k <> 0 /\ ~ (V a k = outv /\ lir <= k) /\ nlookup (V a k) (vname s) = Some (nm k) /\ In (nm k) (temps s)).
+Proof using HN.
+  intros Hk. destruct (ni_done _ _ _ _ _ _ HN k Hk) as [_ Ht]. unfold nm, nm_of, is_temp in *.
+  destruct (k =? 0) eqn:E0; [apply Z.eqb_eq in E0; now left|apply Z.eqb_neq in E0; right].
+  destruct ((V a k =? outv)%nat && (lir <=? k)) eqn:E1.
+  - apply andb_true_iff in E1 as [Ea Eb]. apply Nat.eqb_eq in Ea. apply Z.leb_le in Eb. left. auto.
+  - right. specialize (Ht eq_refl). destruct (nlookup (V a k) (vname s)) as [n|] eqn:El; [|congruence].
+    split; [exact E0|]. split; [|split; [reflexivity|apply (vname_in_temps _ _ El)]].
+    intros [Ea Eb]. apply Nat.eqb_eq in Ea. apply Z.leb_le in Eb. rewrite Ea, Eb in E1. discriminate.
+Qed.
+
+Lemma nm_nonempty k : In k done -> nm k <> [].
+Proof using Hcfg HN.
+  intros Hk. destruct (nm_class k Hk) as [(_ & E)|[(_ & _ & _ & E)|(_ & _ & _ & Hin)]].
+  - rewrite E. apply (ck_in _ Hcfg).
+  - rewrite E. apply (ck_out _ Hcfg).
+  - destruct (temps_are_tmpnames _ Hin) as (t & E). rewrite E. unfold tmpname. intros H.
+    apply app_eq_nil in H as [_ H]. unfold print_decN, print_base_fuel in H.
+    destruct (N.of_nat t / 10 =? 0)%N; [discriminate H|].
+    revert H. generalize (hexchar (N.of_nat t mod 10)). generalize (N.of_nat t / 10)%N.
+    generalize (N.to_nat (N.size (N.of_nat t))). intros f. fold print_base_fuel.
+    assert (Hne : forall f q acc, acc <> [] -> print_base_fuel 10 f q acc <> []).
+    { induction f0 as [|f0 IHf]; intros q acc Hacc; cbn [print_base_fuel]; [exact Hacc|].
+      destruct (q / 10 =? 0)%N; [discriminate|]. apply IHf. discriminate. }
+    intros q c. apply Hne. discriminate.
+Qed.
+
+(* naming_sound: distinct variables get distinct names *)
+Lemma naming_sound j k : In j done -> In k done -> V a j <> V a k -> nm j <> nm k.
+Proof using Hcfg HN.
+  intros Hj Hk Hv.
+  destruct (nm_class j Hj) as [(Ej & Nj)|[(Ej & Vj & Lj & Nj)|(Ej & _ & Tj & Ij)]];
+  destruct (nm_class k Hk) as [(Ek & Nk)|[(Ek & Vk & Lk & Nk)|(Ek & _ & Tk & Ik)]].
+  - subst. congruence.
+  - rewrite Nj, Nk. apply (ck_io _ Hcfg).
+  - rewrite Nj. destruct (temps_are_tmpnames _ Ik) as (t & ->). intros E. symmetry in E. revert E. apply (ck_tin _ Hcfg).
+  - rewrite Nj, Nk. intros E. symmetry in E. revert E. apply (ck_io _ Hcfg).
+  - congruence.
+  - rewrite Nj. destruct (temps_are_tmpnames _ Ik) as (t & ->). intros E. symmetry in E. revert E. apply (ck_tout _ Hcfg).
+  - rewrite Nk. destruct (temps_are_tmpnames _ Ij) as (t & ->). apply (ck_tin _ Hcfg).
+  - rewrite Nk. destruct (temps_are_tmpnames _ Ij) as (t & ->). apply (ck_tout _ Hcfg).
+  - intros E. apply Hv. rewrite <- E in Tk.
+    apply (nlookup_inj (vname s) _ _ (nm j)); [|exact Tj|exact Tk].
+    rewrite (ni_vals _ _ _ _ _ _ HN). apply NoDup_rev, temps_NoDup.
+Qed.
+
+(* the input name is used for element 0 only *)
+Lemma nm_input_only k : In k done -> (nm k = cfg_in cfg <-> k = 0).
+Proof using Hcfg HN.
+  intros Hk. destruct (nm_class k Hk) as [(E & Nk)|[(E & _ & _ & Nk)|(E & _ & _ & Ik)]].
+  - tauto.
+  - rewrite Nk. split; [intros H; symmetry in H; now apply (ck_io _ Hcfg) in H|tauto].
+  - destruct (temps_are_tmpnames _ Ik) as (t & ->). split; [intros H; now apply (ck_tin _ Hcfg) in H|tauto].
+Qed.
+
+(* temporaries_exact: the declared temporaries are the names used other than input and output *)
+Lemma temporaries_exact n : In n (temps s) <->
+  (exists k, In k done /\ nm k = n) /\ n <> cfg_in cfg /\ n <> cfg_out cfg.
+Proof using Hcfg HN.
+  split.
+  - intros Hin. destruct (temps_are_tmpnames _ Hin) as (t & Et).
+    split; [|subst n; split; [apply (ck_tin _ Hcfg)|apply (ck_tout _ Hcfg)]].
+    apply in_rev in Hin. rewrite <- (ni_vals _ _ _ _ _ _ HN) in Hin.
+    apply in_map_iff in Hin as ([v n'] & E & Hvn). cbn [snd] in E. subst n'.
+    assert (Hv : In v (map fst (vname s))) by (apply in_map_iff; exists (v, n); auto).
+    destruct (ni_used _ _ _ _ _ _ HN v Hv) as (k & Hk & Htk & Evk).
+    exists k. split; [exact Hk|].
+    pose proof (In_nlookup v n (vname s) (ni_keys _ _ _ _ _ _ HN) Hvn) as El.
+    unfold nm, nm_of. unfold is_temp in Htk.
+    destruct (k =? 0); [discriminate Htk|]. cbn [negb andb] in Htk.
+    destruct ((V a k =? outv)%nat && (lir <=? k)); [discriminate Htk|].
+    rewrite Evk, El. reflexivity.
+  - intros [(k & Hk & E) [Hi Ho]]. destruct (nm_class k Hk) as [(_ & Nk)|[(_ & _ & _ & Nk)|(_ & _ & _ & Ik)]]; try congruence.
+Qed.
+
+(* each temporary belongs to its own variable, so there are at most nvars of them *)
+Lemma temps_le_nvars : bounded a -> (forall k, In k done -> zlookup k (variable a) <> None) ->
+  (length (temps s) <= nvars a)%nat.
+Proof using HN.
+  intros [Hb _] Hal.
+  assert (Hlen : length (temps s) = length (map fst (vname s))).
+  { rewrite map_length, <- (map_length snd), (ni_vals _ _ _ _ _ _ HN), rev_length. reflexivity. }
+  rewrite Hlen, <- (seq_length (nvars a) 0).
+  apply NoDup_incl_length; [apply (ni_keys _ _ _ _ _ _ HN)|].
+  intros v Hv. destruct (ni_used _ _ _ _ _ _ HN v Hv) as (k & Hk & _ & E).
+  apply in_seq. specialize (Hal k Hk). unfold V in E.
+  destruct (zlookup k (variable a)) as [w|] eqn:El; [|congruence]. subst w. specialize (Hb _ _ El). lia.
+Qed.
+
+End Names.
+
+(* ------------------------------------------------------------------ program structure *)
+Lemma last_instr_split p lst : last_instr p = Some lst -> exists front, p = front ++ [lst].
+Proof.
+  induction p as [|i r IH]; cbn [last_instr]; [discriminate|].
+  destruct r as [|i2 r2].
+  - intros E. injection E as <-. exists []. reflexivity.
+  - intros E. destruct (IH E) as (front & Ef). exists (i :: front). cbn [app]. now rewrite <- Ef.
+Qed.
+
+Lemma last_instr_some p : p <> [] -> exists lst, last_instr p = Some lst.
+Proof.
+  induction p as [|i r IH]; [congruence|]. intros _. destruct r as [|i2 r2]; [eexists; reflexivity|].
+  destruct IH as (lst & E); [discriminate|]. exists lst. exact E.
+Qed.
+
+Lemma outs_app p q : outs (p ++ q) = outs p ++ outs q.
+Proof. apply map_app. Qed.
+Lemma reads_app p q : reads (p ++ q) = reads p ++ reads q.
+Proof. unfold reads. apply flat_map_app. Qed.
+
+Lemma wf_from_app pre : forall q d l, wf_from d l (pre ++ q) ->
+  exists d' l', wf_from d' l' q /\ l <= l' /\ (forall o, In o (outs pre) -> o <= l').
+Proof.
+  induction pre as [|i pre IH]; intros q d l H; cbn [app] in *.
+  - exists d, l. split; [exact H|]. split; [lia|intros o []].
+  - destruct H as (Hlt & _ & Hr). destruct (IH _ _ _ Hr) as (d' & l' & Hq & Hle & Ho).
+    exists d', l'. split; [exact Hq|]. split; [lia|]. intros o [<-|Hin]; [lia|auto].
+Qed.
+
+(* outputs are positive and strictly increasing *)
+Lemma wf_ir_outs_pos p o : wf_ir p -> In o (outs p) -> 0 < o.
+Proof. intros H. apply (wf_from_outs_gt _ _ _ H). Qed.
+
+Lemma wf_ir_outs_incr pre i q o : wf_ir (pre ++ i :: q) -> In o (outs q) -> out_index i < o.
+Proof.
+  intros H Ho. destruct (wf_from_app pre _ _ _ H) as (d' & l' & (_ & _ & Hq) & _).
+  apply (wf_from_outs_gt _ _ _ Hq _ Ho).
+Qed.
+
+Lemma wf_ir_outs_before pre i q o : wf_ir (pre ++ i :: q) -> In o (outs pre) -> o < out_index i.
+Proof.
+  intros H Ho. destruct (wf_from_app pre _ _ _ H) as (d' & l' & (Hlt & _) & _ & Hb).
+  specialize (Hb o Ho). lia.
+Qed.
+
+(* ------------------------------------------------------------------ lastinputread *)
+Lemma lir_instr_spec l i : (In 0 (in_indexes i) -> lir_instr l i = out_index i) /\ (~ In 0 (in_indexes i) -> lir_instr l i = l).
+Proof.
+  unfold lir_instr. generalize (out_index i). intros o. revert l.
+  induction (in_indexes i) as [|x xs IH]; intros l; cbn [fold_left In]; [tauto|].
+  destruct (x =? 0) eqn:E.
+  - apply Z.eqb_eq in E. subst x. split; [intros _|tauto].
+    destruct (in_dec Z.eq_dec 0 xs) as [Hin|Hni]; [apply (proj1 (IH o)), Hin|apply (proj2 (IH o)), Hni].
+  - apply Z.eqb_neq in E. destruct (IH l) as [IH1 IH2]. split.
+    + intros [E2|Hin]; [congruence|auto].
+    + intros Hni. apply IH2. tauto.
+Qed.
+
+Lemma lir_fold q : forall l, (In 0 (reads q) -> In (fold_left lir_instr q l) (outs q)) /\
+                             (~ In 0 (reads q) -> fold_left lir_instr q l = l).
+Proof.
+  induction q as [|i r IH]; intros l; cbn [fold_left]; [cbn; tauto|].
+  unfold reads, outs. cbn [flat_map map]. fold (reads r). fold (outs r). rewrite in_app_iff.
+  destruct (IH (lir_instr l i)) as [IH1 IH2]. destruct (lir_instr_spec l i) as [S1 S2].
+  destruct (in_dec Z.eq_dec 0 (reads r)) as [Hr|Hr].
+  - split; [intros _; right; auto|tauto].
+  - rewrite (IH2 Hr). split.
+    + intros [Hi|Hi]; [|contradiction]. left. symmetry. auto.
+    + intros Hn. apply S2. tauto.
+Qed.
+
+Lemma lir_in_suffix pre q : In 0 (reads q) -> In (lastinputread (pre ++ q)) (outs q).
+Proof. intros H. unfold lastinputread. rewrite fold_left_app. apply lir_fold, H. Qed.
+
+Lemma lir_le_last front lst : wf_ir (front ++ [lst]) -> lastinputread (front ++ [lst]) <= out_index lst.
+Proof.
+  intros Hw. set (p := front ++ [lst]).
+  destruct (in_dec Z.eq_dec 0 (reads p)) as [H|H].
+  - pose proof (lir_in_suffix [] p H) as Hin. cbn [app] in Hin. unfold p in Hin at 2. rewrite outs_app in Hin.
+    apply in_app_or in Hin as [Hin|[<-|[]]]; [|fold p; lia].
+    pose proof (wf_ir_outs_before front lst [] _ Hw Hin). fold p in H0. lia.
+  - unfold lastinputread. rewrite (proj2 (lir_fold p 0) H).
+    assert (0 < out_index lst); [|lia]. apply (wf_ir_outs_pos p); [exact Hw|]. unfold p. rewrite outs_app. apply in_or_app. right. now left.
+Qed.
+
+(* ------------------------------------------------------------------ separation of registers *)
+(* two names denote the same register: equal names, or input/output in aliased mode *)
+Definition same_reg (aliased : bool) (cfg : alloc_cfg) (n1 n2 : list N) : Prop :=
+  n1 = n2 \/ (aliased = true /\ ((n1 = cfg_in cfg /\ n2 = cfg_out cfg) \/ (n1 = cfg_out cfg /\ n2 = cfg_in cfg))).
+
+Section Allocated.
+Variable cfg : alloc_cfg.
+Hypothesis Hcfg : cfg_ok cfg.
+Variables (p : iprogram) (lst : instr) (front : iprogram) (idx : list Z).
+Hypothesis Hwf : wf_ir p.
+Hypothesis Hp : p = front ++ [lst].
+Hypothesis Hidx : forall k, In k idx <-> In k (reads p) \/ In k (outs p).
+
+Let s := run_naming cfg p idx lst.
+Let a := scan p.
+Let lir := lastinputread p.
+Let outv := V a (out_index lst).
+Let nm := nm_of cfg lir outv a (vname s).
+
+Lemma lst_in_outs : In (out_index lst) (outs p).
+Proof using Hp. rewrite Hp, outs_app. apply in_or_app. right. now left. Qed.
+
+Lemma alloc_NInv : NInv cfg lir outv a (rev idx) s.
+Proof using Hwf Hp Hidx.
+  apply run_naming_inv; [apply wf_ir_wf, Hwf|apply lst_in_outs|]. intros k Hk. now apply Hidx.
+Qed.
+
+Lemma idx_done k : In k (reads p) \/ In k (outs p) -> In k (rev idx).
+Proof using Hidx. intros H. rewrite <- in_rev. now apply Hidx. Qed.
+
+(* the identifier the pass leaves on the canonical operand of index k *)
+Lemma ident_nm k : In k (reads p) \/ In k (outs p) -> ident (opname s) k = nm k.
+Proof using Hwf Hp Hidx.
+  intros H. unfold ident. destruct (ni_done _ _ _ _ _ _ alloc_NInv k (idx_done k H)) as [E _].
+  fold s in E. rewrite E. reflexivity.
+Qed.
+
+Lemma nm_last : nm (out_index lst) = cfg_out cfg.
+Proof using Hwf Hp Hidx.
+  pose proof (wf_ir_outs_pos p _ Hwf lst_in_outs) as Hpos.
+  assert (Hle : lir <= out_index lst) by (unfold lir; rewrite Hp; apply lir_le_last; rewrite <- Hp; exact Hwf).
+  unfold nm, nm_of. destruct (out_index lst =? 0) eqn:E; [apply Z.eqb_eq in E; lia|].
+  unfold outv. rewrite Nat.eqb_refl. apply Z.leb_le in Hle. rewrite Hle. reflexivity.
+Qed.
+
+(* an instruction's output register holds no other value that is needed later, in both modes *)
+Theorem out_separate aliased pre i q j : p = pre ++ i :: q -> L q j -> j <> out_index i ->
+  ~ same_reg aliased cfg (nm j) (nm (out_index i)).
+Proof using Hcfg Hwf Hp Hidx.
+  intros Ep Hj Hne.
+  assert (Hw : wf p) by (apply wf_ir_wf, Hwf).
+  assert (Hwq : wf (i :: q)) by (rewrite Ep in Hw; eapply wf_app; eauto).
+  (* the variables differ *)
+  destruct (out_conflict i q j Hwq Hj Hne) as (vj & vo & Ej & Eo & Hd).
+  assert (Hst : stable (scan (i :: q)) a) by (unfold a; rewrite Ep; apply scan_stable).
+  assert (HV : V a j <> V a (out_index i)).
+  { unfold V. rewrite (Hst _ _ Ej), (Hst _ _ Eo). exact Hd. }
+  assert (Hoin : In (out_index i) (outs p)) by (rewrite Ep, outs_app; apply in_or_app; right; now left).
+  assert (Hjin : In j (reads p)).
+  { destruct Hj as [Hj _]. rewrite Ep, reads_app. apply in_or_app. right. unfold reads. cbn [flat_map]. apply in_or_app. now right. }
+  assert (Hdo : In (out_index i) (rev idx)) by (apply idx_done; auto).
+  assert (Hdj : In j (rev idx)) by (apply idx_done; auto).
+  pose proof (naming_sound cfg Hcfg lir outv a (rev idx) s alloc_NInv j (out_index i) Hdj Hdo HV) as Hns.
+  fold nm in Hns.
+  intros [E|(Hal & [[E1 E2]|[E1 E2]])]; [contradiction| |].
+  - (* j is the input, the output of i is in the output variable: i is at or after the last reader of the input *)
+    apply (nm_input_only cfg Hcfg lir outv a (rev idx) s alloc_NInv j Hdj) in E1. subst j.
+    destruct (nm_class cfg lir outv a (rev idx) s alloc_NInv (out_index i) Hdo) as [(E0 & _)|[(_ & _ & Hle & _)|(_ & _ & _ & Hin)]].
+    + pose proof (wf_ir_outs_pos p _ Hwf Hoin). lia.
+    + assert (H0 : In 0 (reads q)) by apply Hj.
+      pose proof (lir_in_suffix (pre ++ [i]) q H0) as Hl. rewrite <- app_assoc in Hl. cbn [app] in Hl. rewrite <- Ep in Hl.
+      fold lir in Hl. rewrite Ep in Hwf. pose proof (wf_ir_outs_incr pre i q _ Hwf Hl). lia.
+    + fold nm in Hin. rewrite E2 in Hin. destruct (temps_are_tmpnames cfg lir outv a (rev idx) s alloc_NInv _ Hin) as (t & Et).
+      symmetry in Et. revert Et. apply (ck_tout _ Hcfg).
+  - (* the output of i cannot be named like the input *)
+    apply (nm_input_only cfg Hcfg lir outv a (rev idx) s alloc_NInv _ Hdo) in E2.
+    pose proof (wf_ir_outs_pos p _ Hwf Hoin). lia.
+Qed.
+
+(* no instruction writes the input variable *)
+Lemma out_not_input i : In i p -> nm (out_index i) <> cfg_in cfg.
+Proof using Hcfg Hwf Hp Hidx.
+  intros Hi E. assert (Hoin : In (out_index i) (outs p)) by (apply in_map, Hi).
+  apply (nm_input_only cfg Hcfg lir outv a (rev idx) s alloc_NInv _ (idx_done _ (or_intror Hoin))) in E.
+  pose proof (wf_ir_outs_pos p _ Hwf Hoin). lia.
+Qed.
+
+End Allocated.
